@@ -33,7 +33,6 @@ import (
 	"github.com/caddyserver/certmagic"
 	"github.com/mholt/acmez/v3"
 	"github.com/mholt/acmez/v3/acme"
-	"github.com/miekg/dns"
 	"go.uber.org/zap"
 
 	"verifharness/pkg/doubles"
@@ -101,6 +100,7 @@ type c15Env struct {
 	stopAll  func()
 	loadFail bool
 	cleanFault bool // a Delete of a token file is applied but reports an error
+	own      c15OwnAnswers
 	host     string
 }
 
@@ -128,6 +128,9 @@ func c15FreePort(host string) int {
 	panic("no free port on " + host)
 }
 
+// the CA directory URLs of the two configured issuers
+var c15CAs = []string{"https://ca-one.test/dir", "https://ca-two.test/acme/directory"}
+
 func c15NewEnv() (*c15Env, error) {
 	log.SetOutput(io.Discard) // the solvers' servers log handshake errors of probes
 	e := &c15Env{backend: doubles.NewMemBackend(), host: c15LoopbackHost()}
@@ -144,9 +147,9 @@ func c15NewEnv() (*c15Env, error) {
 	mk := func(inst string) (*certmagic.Config, []*certmagic.ACMEIssuer, *certmagic.Cache, certmagic.Storage) {
 		st := doubles.NilCtxStorage{S: e.backend.Handle(inst)}
 		cfg, cache := doubles.NewConfig(st, certmagic.Config{DefaultServerName: "app.example", FallbackServerName: "app.example"}, certmagic.CacheOptions{})
-		i0 := certmagic.NewACMEIssuer(cfg, certmagic.ACMEIssuer{CA: "https://ca-one.test/dir", TestCA: "https://staging.ca-one.test/dir", Email: "x@example.com", Agreed: true, Logger: zap.NewNop(),
+		i0 := certmagic.NewACMEIssuer(cfg, certmagic.ACMEIssuer{CA: c15CAs[0], TestCA: "https://staging.ca-one.test/dir", Email: "x@example.com", Agreed: true, Logger: zap.NewNop(),
 			ListenHost: e.host, AltHTTPPort: c15FreePort(e.host), AltTLSALPNPort: c15FreePort(e.host)})
-		i1 := certmagic.NewACMEIssuer(cfg, certmagic.ACMEIssuer{CA: "https://ca-two.test/acme/directory", TestCA: "https://ca-two.test/acme/directory", Email: "x@example.com", Agreed: true, Logger: zap.NewNop(),
+		i1 := certmagic.NewACMEIssuer(cfg, certmagic.ACMEIssuer{CA: c15CAs[1], TestCA: "https://ca-two.test/acme/directory", Email: "x@example.com", Agreed: true, Logger: zap.NewNop(),
 			ListenHost: e.host, AltHTTPPort: c15FreePort(e.host), AltTLSALPNPort: c15FreePort(e.host)})
 		cfg.Issuers = []certmagic.Issuer{i0, i1}
 		return cfg, []*certmagic.ACMEIssuer{i0, i1}, cache, st
@@ -154,6 +157,8 @@ func c15NewEnv() (*c15Env, error) {
 	_, issA, cacheA, stA := mk("A")
 	cfgB, issB, cacheB, _ := mk("B")
 	e.cfgB, e.issA, e.issB, e.handleA = cfgB, issA, issB, stA
+	e.own.issuerKey(issB[0], c15CAs[0])
+	e.own.issuerKey(issB[1], c15CAs[1])
 	e.issDis = certmagic.NewACMEIssuer(cfgB, certmagic.ACMEIssuer{CA: "https://ca-one.test/dir", DisableHTTPChallenge: true, Logger: zap.NewNop()})
 	ca := doubles.NewCA("C15 application CA")
 	chain, leaf, key, err := ca.Leaf(doubles.LeafOpts{Names: []string{"app.example"}})
@@ -243,7 +248,9 @@ func (e *c15Env) apply(in *c15In, op c15Op) error {
 		e.query(in, *op.Q) // unparsable targets are simply not delivered
 		return nil
 	case "tamper":
-		key := certmagic.VerifChallengeTokensKey(e.issB[op.J].IssuerKey(), op.Name)
+		// the file is located independently of the code under test (c15_indep.go)
+		key := c15TokensKey(c15IssuerKeyOf(c15CAs[op.J]), op.Name)
+		e.own.tokensKey(c15IssuerKeyOf(c15CAs[op.J]), op.Name)
 		switch op.V {
 		case "delete":
 			e.backend.Remove(key)
@@ -383,12 +390,18 @@ func (e *c15Env) query(in *c15In, q c15Query) (c15Obs, *url.URL, error) {
 	return o, nil, fmt.Errorf("bad query kind %q", q.Kind)
 }
 
-func c15RevAddr(c c15Chal) *string {
-	r, err := dns.ReverseAddr(c.Ident)
-	if err != nil {
-		return nil
+// c15EncIP sends the identifier's address bytes (nil: not an IP literal); the model builds the
+// reverse-mapping name itself (Challenge.Model.rev_name).
+func c15EncIP(e *emit.Enc, ident string) {
+	b := c15IPBytes(ident)
+	if b == nil {
+		e.Bool(false)
+		return
 	}
-	return &r
+	e.Bool(true).Len(len(b))
+	for _, x := range b {
+		e.Z(int64(x))
+	}
 }
 
 func c15EncChal(e *emit.Enc, c c15Chal) {
@@ -397,7 +410,8 @@ func c15EncChal(e *emit.Enc, c c15Chal) {
 	if !ok {
 		ty = 3
 	}
-	e.Int(ty).Str(c.Token).Str(c.KeyAuth).Bool(c.IDType == "ip").Str(c.Ident).OptStr(c15RevAddr(c))
+	e.Int(ty).Str(c.Token).Str(c.KeyAuth).Bool(c.IDType == "ip").Str(c.Ident)
+	c15EncIP(e, c.Ident)
 }
 
 // c15Tables: ToLower / IsSpace of the non-ASCII code points in strs, and the fold-equal pairs
@@ -472,7 +486,7 @@ func (r *c15Runner) runScenario(chals []c15Chal, ops []c15Op, queries []c15Query
 		}
 	}
 	storeObs := e.tokenKeys()
-	issKeys := []string{e.issB[0].IssuerKey(), e.issB[1].IssuerKey()}
+	issKeys := []string{c15IssuerKeyOf(c15CAs[0]), c15IssuerKeyOf(c15CAs[1])}
 	for qi, q := range queries {
 		in := c15In{Chals: chals, Ops: ops, Query: q}
 		obs, u, err := e.query(&in, q)
@@ -487,7 +501,8 @@ func (r *c15Runner) runScenario(chals []c15Chal, ops []c15Op, queries []c15Query
 		strs := append([]string{}, issKeys...)
 		var chalStrs []string
 		for _, c := range chals {
-			k := certmagic.VerifChallengeKey(c.acme())
+			k := c15KeyOf(c.acme())
+			e.own.chal(c.acme())
 			strs = append(strs, c.Ident, k)
 			chalStrs = append(chalStrs, c.Ident, k)
 		}
@@ -679,7 +694,7 @@ func c15QueriesFor(r *rand.Rand, chals []c15Chal, ci int, state string, thorough
 	}
 	hv, pv := c15HostVariants(c.Ident), c15PathVariants(c.Token, other)
 	// the challenge's memory / storage key as Host: found by the lookup, refused by the Host check
-	hv = append(hv, c15Variant{"chal-key", certmagic.VerifChallengeKey(c.acme())}, c15Variant{"chal-key-port", certmagic.VerifChallengeKey(c.acme()) + ":80"})
+	hv = append(hv, c15Variant{"chal-key", c15KeyOf(c.acme())}, c15Variant{"chal-key-port", c15KeyOf(c.acme()) + ":80"})
 	exactPath := pv[0].val
 	hostExact := c.Ident
 	if idk == "ipv6" {
@@ -707,7 +722,7 @@ func c15QueriesFor(r *rand.Rand, chals []c15Chal, ci int, state string, thorough
 		}
 		add(c15Query{Kind: "http", Method: m, Target: p.val, Host: h.val, LoadFault: r.Intn(15) == 0}, map[string]any{"host": h.name, "path": p.name, "method": m})
 	}
-	key := certmagic.VerifChallengeKey(c.acme())
+	key := c15KeyOf(c.acme())
 	sv := c15SNIVariants(key, c.Ident)
 	for _, s := range sv {
 		add(c15Query{Kind: "hello", SNI: s.val, Protos: []string{"acme-tls/1"}}, map[string]any{"sni": s.name, "protos": "acme-only"})
@@ -730,7 +745,7 @@ func c15Asks(c c15Chal) []c15Op {
 		host = "[" + c.Ident + "]"
 	}
 	return []c15Op{
-		{Kind: "ask", Q: &c15Query{Kind: "hello", SNI: certmagic.VerifChallengeKey(c.acme()), Protos: []string{"acme-tls/1"}}},
+		{Kind: "ask", Q: &c15Query{Kind: "hello", SNI: c15KeyOf(c.acme()), Protos: []string{"acme-tls/1"}}},
 		{Kind: "ask", Q: &c15Query{Kind: "http", Method: "GET", Target: c15Base + "/" + c.Token, Host: host}},
 	}
 }
@@ -757,6 +772,7 @@ func runC15(tier string, seed int64, outdir string, replay string) error {
 		return err
 	}
 	defer env.stopAll()
+	defer func() { w.Meta.Oracles = append(w.Meta.Oracles, env.own.check()) }()
 	run := &c15Runner{env: env, w: w}
 	r := rand.New(rand.NewSource(seed))
 	thorough := tier == "thorough"
